@@ -344,6 +344,16 @@ pub struct GenCfg {
     pub div: bool,
     pub mul_max_w: u32,
     pub arrays: bool,
+    /// operand widths used below comparison operators
+    pub cmp_widths: Vec<u32>,
+}
+impl GenCfg {
+    pub fn wide(div: bool, mul_max_w: u32) -> Self {
+        GenCfg { div, mul_max_w, arrays: true, cmp_widths: vec![1, 2, 3, 8, 33, 65] }
+    }
+    pub fn small() -> Self {
+        GenCfg { div: false, mul_max_w: 8, arrays: true, cmp_widths: vec![1, 2, 3] }
+    }
 }
 
 pub fn gen_bv(ctx: &mut Context, rng: &mut SmallRng, cfg: &GenCfg, w: u32, d: u32, syms: &[ExprRef], arrs: &[ExprRef]) -> ExprRef {
@@ -361,7 +371,7 @@ pub fn gen_bv(ctx: &mut Context, rng: &mut SmallRng, cfg: &GenCfg, w: u32, d: u3
         };
     }
     if w == 1 && rng.random_bool(0.6) {
-        let ow = *[1u32, 2, 3, 8, 33, 65].choose(rng).unwrap();
+        let ow = *cfg.cmp_widths.choose(rng).unwrap();
         let (a, b) = (g!(ow), g!(ow));
         return match rng.random_range(0..7) {
             0 => ctx.equal(a, b),
